@@ -70,8 +70,17 @@ _CMP = _h(_scan('int_cmp.rs', 'vk_int_cmp_'),
           'magnitudes of at most 3 words (TypedReprRef: 4), full 64-bit symbolic words')
 
 _FORMS = _h(_scan('int_forms.rs', 'vk_int_forms_'),
-            'operands of 1, 2 or 3 words (class per harness: suffix _A_B); full 64-bit symbolic words for + - & | ^ '
-            '<< >> (shift < 130), palette words {0, 1, 2^63, 2^64-1} for * / %')
+            'operands of 1, 2 or 3 words (class per harness: suffix _A_B, p/n = sign of an IBig operand); full 64-bit '
+            'symbolic words for + - & | ^ << >> (shl: literal amounts from {0,1,63,64,65,129}, shr: any amount < 130), '
+            'palette words {0, 1, 2^63, 2^64-1} for * / %; no 3-word / multi-word division, no |, ^ on IBig, '
+            'primitive-operand forms only for -, |, & (UBig) and /, % (IBig, signed)')
+
+for _n in ['ibig_add_1p_1n', 'ibig_sub_1p_1p', 'ubig_div_3_1', 'ubig_rem_3_3', 'ibig_div_i8_2n', 'ibig_rem_i8_2n']:
+    _FORMS['vk_int_forms_' + _n]['tier'] = 'thorough'      # 3 .. 10 min each
+_FORMS['vk_int_forms_finding_ibig_rem_u8_negative'] = {
+    'kind': 'finding', 'bound': 'one-word negative dividend (palette word), any non-zero u8 divisor',
+    'note': '`IBig % u8` (every unsigned primitive, also div_rem / div_rem_assign) panics in `.try_into().unwrap()` when '
+            'the dividend is negative and the remainder non-zero, e.g. IBig::from(-7) % 3u8'}
 
 KANI = {
     'int_forms': {
